@@ -546,7 +546,7 @@ def _only_deadline_uses(ctx, f: Func, var: str, depth: int) -> bool:
                 p, child = getattr(p, "_parent", None), p
             if isinstance(p, ast.Compare) and (all(isinstance(o, (ast.Gt, ast.GtE, ast.Lt, ast.LtE)) for o in p.ops) or all(isinstance(o, (ast.Is, ast.IsNot)) for o in p.ops)):
                 continue
-            if isinstance(p, ast.Assign) and p.value is child and all(norm(t).endswith(".start_time") for t in p.targets):
+            if isinstance(p, ast.Assign) and p.value is child and all(norm(t).endswith(".start_time") or "deadline" in norm(t).split(".")[-1] for t in p.targets):
                 continue
             if isinstance(p, ast.IfExp) and p.test is not child:
                 # `x.start_time if x is not None else None`-style selections are followed one level up
